@@ -332,6 +332,45 @@ func runC09(c *Ctx) {
 			}
 		}
 	})
+	// the message VerifyHashEnvelope returns must re-encode like any decoded message
+	nHE := c.N(400, 20000)
+	mon.Parallel(c.Workers, nHE, func(w, i int) {
+		r := mon.NewRand(uint64(c.Seed)).Sub(uint64(114000 + i))
+		k := c.Keys.Keys[i%7]
+		b := c03makeBase(c, r, 49+i%7+7*(i/7%3)*0, k) // kind index 7 = hash envelope
+		if b == nil || b.kind != "hashenv" {
+			return
+		}
+		in := map[string]any{"case": i, "kind": "hash-envelope", "wire": mon.FullHex(b.wire), "nesting": "hashenv"}
+		var m *cose.Sign1Message
+		var err error
+		if guard(rec, "VerifyHashEnvelope", in, func() { m, err = cose.VerifyHashEnvelope(k.Verifier, b.wire) }) {
+			return
+		}
+		rec.Eval(1)
+		rec.Event("hash-envelopes")
+		if err != nil || m == nil {
+			return // acceptance is C12's / C03's business
+		}
+		out, merr := m.MarshalCBOR()
+		want, ok := c09predict("sign1", b.wire)
+		if !ok {
+			return
+		}
+		canon, _ := refcbor.IsCanonical(b.wire)
+		rec.Class(fmt.Sprintf("hash-envelope/returned-message/canonical=%v/%s", canon, k.Name))
+		if merr != nil || !eqBytes(out, want) {
+			rec.Violate("reencoding-differs", "hash-envelope", fmt.Sprintf("the message returned by VerifyHashEnvelope does not re-encode to the received bytes (err=%v)\n got  %s\n want %s", merr, hexs(out), hexs(want)), in)
+			return
+		}
+		var d cose.Sign1Message
+		if d.UnmarshalCBOR(out) != nil || d.Verify(nil, k.Verifier) != nil {
+			rec.Violate("verify-after", "hash-envelope", "the re-encoded hash envelope no longer verifies", in)
+			return
+		}
+		rec.Event("hash-envelopes-reencoded")
+	})
+	rec.Require("hash-envelopes-reencoded", int64(nHE/4))
 	rec.Require("fixed-point", int64(n/2))
 	rec.Require("verified-after-reencoding", int64(n/2))
 	rec.RequireClasses(40)
